@@ -1,9 +1,13 @@
 #!/bin/bash
 # Builds the Lean model, every property's theorems and its driver executable, offline, from files on disk.
-set -e
-cd "$(dirname "$0")/lean"
-targets="Pose Proofs"
+# The shared core must build; each property is then built on its own so that one property's files can never
+# take another property's check down (each check re-runs `lake build` for its own targets anyway).
+cd "$(dirname "$0")/lean" || exit 2
+lake build Pose Proofs || exit 1
+rc=0
 for i in 01 02 03 04 05 06 07 08 09 10 11 12 13 14 15 16 17 18 19 20; do
-  if [ -f "Proofs/Props/C$i.lean" ]; then targets="$targets Proofs.Props.C$i drv_c$i"; fi
+  if [ -f "Proofs/Props/C$i.lean" ]; then
+    lake build "Proofs.Props.C$i" "drv_c$i" >/tmp/setup_C$i.log 2>&1 || { echo "setup: building C$i failed (see its check)"; tail -5 /tmp/setup_C$i.log; }
+  fi
 done
-lake build $targets
+exit $rc
